@@ -1371,8 +1371,9 @@ def translate(target, src):
             m2 = re.search(target['region'][1], body[m1.end():]) if m1 else None
             if not (m1 and m2): raise Unsupported('region anchors not found')
             if len(re.findall(target['region'][0], body)) != 1: raise Unsupported('region start anchor is not unique')
-            res['line'] = line + body[:m1.start()].count('\n')
-            body = body[m1.start():m1.end() + m2.start()]
+            start = m1.end() if target.get('region_after') else m1.start()     # region_after: the region begins AFTER the start anchor (e.g. a loop header)
+            res['line'] = line + body[:start].count('\n')
+            body = body[start:m1.end() + m2.start()]
             if body.count('{') != body.count('}'): raise Unsupported('region is not a balanced statement sequence')
             outputs = list(target.get('outputs', []))
         # preprocessor conditionals: accepted only when they enclose nothing but comments / blank lines (then they are dropped)
